@@ -55,16 +55,15 @@ FollowClauses(T, reqs, L, isNil, byteSorted) ==
       lexdd(k) == \E j \in 1..k : \E x \in trs[j].links : LexDotDot(T, x)
       \* a clause over the set of requests that break it: explained by the first finding if every one of them meets the
       \* memoisation test, by the second if every one meets one of the two tests
+      \* (the lexical-dot-dot test is kept as a definition: the defect it described is repaired, so it explains nothing any more)
       Expl(bad, name) == IF bad = {} THEN {}
                          ELSE IF \A k \in bad : memo(k) THEN {name \o "/explainedByLinkMemoisation"}
-                         ELSE IF \A k \in bad : memo(k) \/ lexdd(k) THEN {name \o "/explainedByLexicalDotDot"}
                          ELSE {name}
       walkSorted == \A k \in 1..(Len(L) - 1) : LessComponentwise(L[k], L[k + 1])
   IN (IF rootReached THEN (IF isNil THEN {}
                            ELSE Expl({k \in DOMAIN reqs : trs[k].ok /\ trs[k].p = <<>>}, "rootReachedButListNotEmpty"))
       ELSE (IF isNil /\ Len(reqs) > 0
-            THEN (IF \E k \in DOMAIN reqs : lexdd(k) THEN {"emptyListAlthoughRootNotReached/explainedByLexicalDotDot"}
-                  ELSE {"emptyListAlthoughRootNotReached"})
+            THEN {"emptyListAlthoughRootNotReached"}
             ELSE {})
            \* (a nil result means "no filter": everything is covered, the only complaint is the one above)
            \cup (IF isNil THEN {} ELSE Expl({k \in DOMAIN reqs : \E x \in trs[k].links : ~Covers(L, x)}, "traversedSymlinkNotCovered"))
